@@ -59,6 +59,8 @@ def check(model: Model, tier: str):
     scope = [model.func(a) for a in ANCHORS]
     obs += rules.rule_unres(model, scope)
     obs += rules.rule_defassign(model, scope)
+    from .c13 import rule_recip
+    obs += rule_recip(model)      # division by a scalar: one correctly rounded division
     obs += rule_dtype(model, ["_tt_base.TT.__add__", "_tt_base.TT.__sub__", "_tt_base.TT.__mul__", "_tt_base.TT.__rtruediv__"])
     from ..dtypekind import rule_narrow
     obs += rule_narrow(model, [f for f in scope if f.name != "__repr__"])
